@@ -260,7 +260,10 @@ class NDNApp:
                 self.logger.warning('Unable to decode received packet')
                 return
             if lp_pkt.nack is not None:
+                # An omitted NackReason means the reason is unspecified (NackReason.NONE), not "no Nack"
                 nack_reason = lp_pkt.nack.nack_reason
+                if nack_reason is None:
+                    nack_reason = enc.NackReason.NONE
             else:
                 nack_reason = None
             pit_token = lp_pkt.pit_token
